@@ -4,132 +4,53 @@ import Dmn.Lemmas.DecParse
 # C07 — numbers print as plain decimal text that denotes exactly their value
 
 Model: `Dmn.D128.toSci` (decQuadToString), `Dmn.D128.sciToPlain` (`scientific_to_plain`,
-number.rs:453), `Dmn.D128.plain = sciToPlain ∘ toSci` (`Display`/`jsonify`), `Dmn.D128.ofString`
+number.rs:462, sign kept aside, character by character, including where it would panic),
+`Dmn.D128.plain = sciToPlain ∘ toSci` (`Display`/`jsonify`), `Dmn.D128.ofString`
 (decQuadFromString), `Dmn.D128.ofLiteral` (`build_numeric`).
 Specification: `isPlain` (`-?[0-9]+(\.[0-9]+)?`), `plainValue` (sign, digits as one integer,
 number of fraction digits), `isJsonNumber`, `SameValue`.
 
 All statements are for every finite decimal128 (`WF d`: `coeff < 10^34`, `-6176 ≤ exp ≤ 6111`),
-no bound on anything else.
-
-Findings on the current code:
-* F1 — a negative number that decQuadToString prints in `E-` form (adjusted exponent < −6) gets
-  its sign *after* the leading `0.000…`: `-0.00000015` prints `0.000000-15`.  `f1Region d` is
-  exactly that region; the `_partial` theorems exclude it, `plain_f1_region` says what is
-  printed there (for *all* of the region), `plain_shape_counterexample` is the witness.
-* F19 — a zero with positive exponent (`0E+3`, e.g. `decimal(0, -3)`) prints `0000`: plain
-  shape and value are fine, but it is not a JSON number.
+no bound on anything else, and at full strength: the two defects the first version of this
+file had to exclude are repaired in the code —
+* F1 (`-0.00000015` printed `0.000000-15`), repaired by 4df4c0b,
+* F19 (`0E+3` printed `0000`), repaired by de58a23 —
+and the `f1Region` / `zeroPosExp` hypotheses and the counterexample theorems are gone.
 -/
 
 namespace Dmn.Props.C07
 open Dmn Dmn.D128
 
-/-- `Display` never panics (no `unwrap()` fails, the `usize` subtraction never underflows):
-it prints the expected plain text, or — in the F1 region — the text with the misplaced sign. -/
-theorem plain_total (d : D128) (hwf : WF d) :
-    plain d = some (if f1Region d then f1Text d else plainSpec d) := by
-  obtain ⟨hc, hlo, hhi⟩ := hwf
-  obtain ⟨c, rest, hcr⟩ := natDigits_cons d.coeff
-  have hlen : (natDigits d.coeff).length ≤ 34 := natDigits_length_le _ 34 (by decide) hc
-  rw [hcr] at hlen
-  simp only [List.length_cons] at hlen
-  have ite_f : f1Region d = false → (if f1Region d = true then f1Text d else plainSpec d) = plainSpec d := by
-    intro h; rw [h]; rfl
-  have ite_t : f1Region d = true → (if f1Region d = true then f1Text d else plainSpec d) = f1Text d := by
-    intro h; rw [h]; rfl
-  by_cases hs : d.exp > 0 ∨ ((rest.length + 1 : Nat) : Int) + d.exp < -5
-  · rw [plain_sci d c rest hcr hlen hlo hhi hs]
-    by_cases hpos : d.exp > 0
-    · have hf1 : f1Region d = false := by
-        unfold f1Region; rw [hcr]; simp only [List.length_cons]
-        cases d.neg <;> simp <;> omega
-      rw [if_pos hpos, ite_f hf1, plainSpec_eq d c rest hcr, if_pos (by omega)]
-    · have hsm : ((rest.length + 1 : Nat) : Int) + d.exp < -5 := by omega
-      rw [if_neg hpos]
-      cases hn : d.neg with
-      | true =>
-        have hf1 : f1Region d = true := by
-          unfold f1Region; rw [hcr, hn]; simp only [List.length_cons]; simp; omega
-        rw [ite_t hf1]
-        simp only [f1Text, hcr, signOf, List.length_cons, if_true]
-      | false =>
-        have hf1 : f1Region d = false := by
-          unfold f1Region; rw [hn]; simp
-        rw [ite_f hf1, plainSpec_eq d c rest hcr, if_neg (by omega), if_neg (by omega), hn]
-        simp [signOf]
-  · have hf1 : f1Region d = false := by
-      unfold f1Region; rw [hcr]; simp only [List.length_cons]
-      cases d.neg <;> simp <;> omega
-    rw [plain_nosci d c rest hcr hs, ite_f hf1]
+/-- `Display` never panics (no `unwrap()` fails, the `usize` subtraction never underflows) and
+prints exactly the expected plain rendering -/
+theorem plain_total (d : D128) (hwf : WF d) : plain d = some (plainSpec d) := plain_eq d hwf
 
--- FULL STATEMENT (not provable of the current code, finding F1):
---   theorem plain_shape (d : D128) (hwf : WF d) : ∃ t, plain d = some t ∧ isPlain t = true
+example : WF ⟨true, 15, -8⟩ ∧ plain ⟨true, 15, -8⟩ = some "-0.00000015".toList := by decide
+example : WF ⟨true, 0, 3⟩ ∧ plain ⟨true, 0, 3⟩ = some "-0".toList := by decide
 
-/-- outside the F1 region the printed text has the shape `-?[0-9]+(\.[0-9]+)?` -/
-theorem plain_shape_partial (d : D128) (hwf : WF d) (h : f1Region d = false) :
-    ∃ t, plain d = some t ∧ isPlain t = true := by
-  refine ⟨plainSpec d, ?_, plainSpec_isPlain d⟩
-  rw [plain_total d hwf, h]; rfl
+/-- the printed text has the shape `-?[0-9]+(\.[0-9]+)?`: optional minus, digits, optionally a
+point followed by digits, never an exponent -/
+theorem plain_shape (d : D128) (hwf : WF d) : ∃ t, plain d = some t ∧ isPlain t = true :=
+  ⟨plainSpec d, plain_eq d hwf, plainSpec_isPlain d⟩
 
-example : WF ⟨true, 15, -3⟩ ∧ f1Region ⟨true, 15, -3⟩ = false := by decide
-example : WF ⟨false, 15, -8⟩ ∧ f1Region ⟨false, 15, -8⟩ = false := by decide
+example : WF ⟨true, 1, -6176⟩ := by decide
 
-/-- F1 witness: `-0.00000015` prints `0.000000-15`, which is not plain decimal text -/
-theorem plain_shape_counterexample :
-    WF ⟨true, 15, -8⟩ ∧ plain ⟨true, 15, -8⟩ = some "0.000000-15".toList ∧
-      isPlain "0.000000-15".toList = false := by decide
-
-/-- in the whole F1 region the sign is printed inside the digits and the text is not plain -/
-theorem plain_f1_region (d : D128) (hwf : WF d) (h : f1Region d = true) :
-    plain d = some (f1Text d) ∧ isPlain (f1Text d) = false := by
-  constructor
-  · rw [plain_total d hwf, h]; rfl
-  · obtain ⟨c, rest, hcr⟩ := natDigits_cons d.coeff
-    unfold f1Text isPlain
-    have e1 : ['0', '.'] ++ zeros ((-d.exp).toNat - (natDigits d.coeff).length) ++ ['-'] ++ natDigits d.coeff
-        = '0' :: ([] ++ '.' :: (zeros ((-d.exp).toNat - (natDigits d.coeff).length) ++ '-' :: natDigits d.coeff)) := by simp
-    rw [e1]
-    have hs : stripMinus ('0' :: ([] ++ '.' :: (zeros ((-d.exp).toNat - (natDigits d.coeff).length) ++ '-' :: natDigits d.coeff)))
-        = (false, '0' :: ([] ++ '.' :: (zeros ((-d.exp).toNat - (natDigits d.coeff).length) ++ '-' :: natDigits d.coeff))) := rfl
-    rw [hs]
-    simp only []
-    unfold isUnsignedPlain
-    have h2 := spanDigits_append ['0'] '.' (zeros ((-d.exp).toNat - (natDigits d.coeff).length) ++ '-' :: natDigits d.coeff)
-      (by intro x hx; simp at hx; subst hx; decide) isDigit_false_dot
-    simp only [List.cons_append, List.nil_append] at h2 ⊢
-    rw [h2]
-    simp [List.all_append, isDigit_false_minus]
-
-example : WF ⟨true, 1, -6176⟩ ∧ f1Region ⟨true, 1, -6176⟩ = true := by decide
-
--- FULL STATEMENT (not provable of the current code, finding F1):
---   theorem plain_value (d : D128) (hwf : WF d) :
---     ∃ t, plain d = some t ∧ plainValue t = some (d.neg, d.coeff * 10 ^ d.exp.toNat, (-d.exp).toNat)
-
-/-- outside the F1 region the printed text denotes exactly the value: its sign is the number's,
-its digits read as one integer are `coeff·10^exp` (`exp ≥ 0`) resp. `coeff`, and it has `-exp`
-fraction digits (`exp < 0`) resp. none -/
-theorem plain_value_partial (d : D128) (hwf : WF d) (h : f1Region d = false) :
+/-- the printed text denotes exactly the value: its sign is the number's, its digits read as
+one integer are `coeff·10^exp` (`exp ≥ 0`) resp. `coeff`, and it has `-exp` fraction digits
+(`exp < 0`) resp. none -/
+theorem plain_value (d : D128) (hwf : WF d) :
     ∃ t, plain d = some t ∧
-      plainValue t = some (d.neg, d.coeff * 10 ^ d.exp.toNat, (-d.exp).toNat) := by
-  refine ⟨plainSpec d, ?_, plainSpec_value d⟩
-  rw [plain_total d hwf, h]; rfl
+      plainValue t = some (d.neg, d.coeff * 10 ^ d.exp.toNat, (-d.exp).toNat) :=
+  ⟨plainSpec d, plain_eq d hwf, plainSpec_value d⟩
 
-/-- F1 witness for the value: the printed text denotes nothing -/
-theorem plain_value_counterexample :
-    plain ⟨true, 15, -8⟩ = some "0.000000-15".toList ∧ plainValue "0.000000-15".toList = none := by
-  decide
-
--- FULL STATEMENT (not provable of the current code, finding F1):
---   theorem plain_reads_back (d : D128) (hwf : WF d) :
---     ∃ t d', plain d = some t ∧ ofString t = .fin d' ∧ SameValue d' d
+example : WF ⟨true, 15, -8⟩ := by decide
 
 /-- reading the printed text back (through the model of decQuadFromString) gives a finite
-number of equal value, for every number outside the F1 region — including integers printed with
-up to 6 145 digits, whose zeros beyond 34 digits go back into the exponent -/
-theorem plain_reads_back_partial (d : D128) (hwf : WF d) (h : f1Region d = false) :
+number of equal value — including integers printed with up to 6 145 digits, whose zeros beyond
+34 digits go back into the exponent -/
+theorem plain_reads_back (d : D128) (hwf : WF d) :
     ∃ t d', plain d = some t ∧ ofString t = .fin d' ∧ SameValue d' d := by
-  have hp : plain d = some (plainSpec d) := by rw [plain_total d hwf, h]; rfl
+  have hp : plain d = some (plainSpec d) := plain_eq d hwf
   by_cases h0 : d.exp ≥ 0
   · obtain ⟨d', h1, h2⟩ := ofString_plainSpec_pos d hwf h0
     exact ⟨plainSpec d, d', hp, h1, h2⟩
@@ -142,13 +63,7 @@ theorem plain_reads_back_partial (d : D128) (hwf : WF d) (h : f1Region d = false
     have e2 : min d.exp 0 = d.exp := by omega
     rw [e1, e2, hz]; simp
 
-example : WF ⟨false, 123, 6111⟩ ∧ f1Region ⟨false, 123, 6111⟩ = false := by decide
-example : WF ⟨true, 123, -2⟩ ∧ f1Region ⟨true, 123, -2⟩ = false := by decide
-
-/-- the text in the F1 region does not read back at all (decQuadFromString gives NaN) -/
-theorem plain_reads_back_counterexample :
-    plain ⟨true, 15, -8⟩ = some "0.000000-15".toList ∧ ofString "0.000000-15".toList = .nan := by
-  decide
+example : WF ⟨false, 123, 6111⟩ ∧ WF ⟨true, 123, -20⟩ := by decide
 
 /-- a literal token `(before, after)` with at most 34 significant digits (`readNat < 10^34`)
 evaluates to exactly the number its digits denote: coefficient = the digits read as one integer,
@@ -181,26 +96,12 @@ example : AllDigits "0".toList ∧ AllDigits "00000015".toList ∧
     readNat ("0".toList ++ "00000015".toList) < 10 ^ 34 :=
   ⟨allDigits_of_all (by decide), allDigits_of_all (by decide), by decide⟩
 
--- FULL STATEMENT (not provable of the current code, findings F1 and F19):
---   theorem json_number (d : D128) (hwf : WF d) : ∃ t, plain d = some t ∧ isJsonNumber t = true
+/-- the JSON rendering (`jsonify` = `Display`) is a JSON number
+(`-?(0|[1-9][0-9]*)(\.[0-9]+)?`; `-0` is one) — and by `plain_value` it has the same value -/
+theorem json_number (d : D128) (hwf : WF d) : ∃ t, plain d = some t ∧ isJsonNumber t = true :=
+  ⟨plainSpec d, plain_eq d hwf, plainSpec_json d⟩
 
-/-- outside the F1 region and except for a zero with positive exponent, the JSON rendering
-(`jsonify` = `Display`) is a JSON number — and by `plain_value_partial` it has the same value -/
-theorem json_number_partial (d : D128) (hwf : WF d) (h : f1Region d = false) (hz : zeroPosExp d = false) :
-    ∃ t, plain d = some t ∧ isJsonNumber t = true := by
-  refine ⟨plainSpec d, ?_, plainSpec_json d hz⟩
-  rw [plain_total d hwf, h]; rfl
-
-example : WF ⟨true, 0, 0⟩ ∧ f1Region ⟨true, 0, 0⟩ = false ∧ zeroPosExp ⟨true, 0, 0⟩ = false := by decide
-
-/-- F1 witness for JSON -/
-theorem json_number_counterexample_f1 :
-    plain ⟨true, 15, -8⟩ = some "0.000000-15".toList ∧ isJsonNumber "0.000000-15".toList = false := by
-  decide
-
-/-- F19 witness: `0E+3` prints `0000`, which is not a JSON number (leading zeros) -/
-theorem json_number_counterexample_zero :
-    WF ⟨false, 0, 3⟩ ∧ plain ⟨false, 0, 3⟩ = some "0000".toList ∧ isJsonNumber "0000".toList = false := by
+example : WF ⟨false, 0, 3⟩ ∧ plain ⟨false, 0, 3⟩ = some "0".toList ∧ isJsonNumber "-0".toList = true := by
   decide
 
 end Dmn.Props.C07
